@@ -1381,4 +1381,167 @@ theorem foldLicense_rel (psA psB : List Para) (h : All2 PRel psA psB) (resA : Li
           subst hA
           exact ⟨_, rfl, All2.append hrel (All2.cons hxy All2.nil)⟩
 
+/-! ### Part 6: the property -/
+
+theorem fromFieldsGroups_rel (mk : Marked) (gs : List (List Fld))
+    (hO : ∀ g ∈ gs, ∀ f ∈ g, OutF mk f ∧ rstripLines f.lines = f.lines) (psA : List Para)
+    (hA : fromFieldsGroups gs = .ok psA) : ∃ psB, fromFieldsGroups (mapOut mk gs) = .ok psB ∧ All2 PRel psA psB := by
+  unfold fromFieldsGroups at hA ⊢
+  obtain ⟨ps0A, ps0B, h1, h2, hr0⟩ := mapExcept_rel mk gs hO
+  rw [h1] at hA
+  rw [h2]
+  simp only at hA ⊢
+  cases hm : mergeUnknown ps0A with
+  | error e => rw [hm] at hA; simp at hA
+  | ok ps1A =>
+    rw [hm] at hA
+    simp only at hA
+    obtain ⟨ps1B, hmB, hr1⟩ := mergeUnknown_rel ps0A ps0B hr0 ps1A hm
+    rw [hmB]
+    simp only
+    exact foldLicense_rel ps1A ps1B hr1 psA hA
+
+theorem parse_render (ls : List Str) (h : ∀ l ∈ ls, Proofs.LinesAscii.NoT l) : parse (render ls) = go none (numberFrom 1 ls) := by
+  unfold parse linesFromText render
+  have := Proofs.LinesAscii.splitLinesAscii_seps ls [] h
+  simp only [List.append_nil] at this
+  rw [this]
+  simp [splitLinesAscii, splitLinesAsciiAux]
+
+theorem sameWords_of (a b : DV) (h : DVR a b) : sameWords a b = true := by
+  cases a with
+  | s x =>
+    cases b with
+    | s y =>
+      simp only [DVR] at h
+      simp only [sameWords, h]
+      exact Props.C11.sameMultiset_refl _
+    | emptyList => exact absurd h (by simp [DVR])
+  | emptyList =>
+    cases b with
+    | s y => exact absurd h (by simp [DVR])
+    | emptyList => rfl
+
+theorem sameParas_of (psA psB : List Para) (h : All2 PRel psA psB) :
+    sameParas (psA.map Props.CopyrightObs.ofPara) (psB.map Props.CopyrightObs.ofPara) = true := by
+  unfold sameParas
+  simp only [Bool.and_eq_true, beq_iff_eq, List.length_map, List.all_eq_true]
+  refine ⟨(All2.len h).symm, ?_⟩
+  intro pq hpq
+  rw [List.zip_map] at hpq
+  obtain ⟨ab, hab, rfl⟩ := List.mem_map.mp hpq
+  -- the pair comes from related paragraphs
+  have hrel : PRel ab.1 ab.2 := by
+    clear hpq
+    induction h with
+    | nil => cases hab
+    | cons hxy _ ih =>
+      simp only [List.zip_cons_cons, List.mem_cons] at hab
+      rcases hab with rfl | hab
+      · exact hxy
+      · exact ih hab
+  simp only [Props.CopyrightObs.ofPara, Prod.map, Bool.and_eq_true, beq_iff_eq, List.all_eq_true]
+  refine ⟨⟨hrel.kind, dict_keys_rel _ _ hrel⟩, ?_⟩
+  intro kv hkv
+  have hd := hrel.dict
+  generalize toDict ab.1 = dA at hd hkv
+  generalize toDict ab.2 = dB at hd hkv
+  induction hd with
+  | nil => cases hkv
+  | cons hxy _ ih =>
+    simp only [List.zip_cons_cons, List.mem_cons] at hkv
+    rcases hkv with rfl | hkv
+    · exact sameWords_of _ _ hxy.2
+    · exact ih hkv
+
+/-- **C12, the copyright object** — in any well-formed document, replacing any admissible set of ` .` markers by empty or
+white-space-only lines gives a copyright object with the same paragraphs, of the same classes, with the same keys and
+the same words under every key -/
+theorem paras_sound (i : Input) (h : wf i = true) :
+    match (model i).orig.paras, (model i).blanked.paras with
+    | .ok ps, .ok qs => sameParas ps qs = true
+    | .error _, _ => True
+    | _, .error _ => False := by
+  have hwf := h
+  simp only [wf, wfDoc, wfMarks, Bool.and_eq_true, List.all_eq_true, List.mem_range] at h
+  obtain ⟨⟨hlines, _⟩, hmarks⟩ := h
+  have hnoT : ∀ s : Str, noTerminator s = true → Proofs.LinesAscii.NoT s := by
+    intro s hs
+    simp only [noTerminator, Bool.and_eq_true, Bool.not_eq_true'] at hs
+    exact ⟨by simpa using hs.1, by simpa using hs.2⟩
+  have hA : ∀ l ∈ i.lines, Proofs.LinesAscii.NoT l := fun l hl => hnoT l (hlines l hl).1
+  have hB : ∀ l ∈ blankedLines i, Proofs.LinesAscii.NoT l := by
+    intro l hl
+    simp only [blankedLines, List.mem_map, List.mem_range] at hl
+    obtain ⟨j, hj, rfl⟩ := hl
+    cases hlk : i.marks.lookup j with
+    | none =>
+      simp only
+      have hm : i.lines.getD j [] ∈ i.lines := by
+        have : i.lines[j]? = some (i.lines.getD j []) := by simp [List.getD, List.getElem?_eq_getElem hj]
+        exact List.mem_of_getElem? this
+      exact hA _ hm
+    | some r =>
+      simp only
+      have := hmarks (j, r) (lookup_mem' _ _ _ hlk)
+      simp only [Bool.and_eq_true] at this
+      exact hnoT r this.1.1.1.1.2
+  have hok := itemsOK_of_wf i hwf 0 i.lines rfl
+  have hinv : StInv (mkOf i) none (itemsFrom i 0 i.lines) := by
+    intro y hy
+    cases hl : i.lines with
+    | nil => rw [hl] at hy; simp [itemsFrom] at hy
+    | cons l ls =>
+      rw [hl] at hy
+      simp only [itemsFrom, List.head?_cons, Option.mem_def, Option.some.injEq] at hy
+      subst hy
+      simp only
+      have hw2 := hwf
+      simp only [wf, wfDoc, Bool.and_eq_true, List.all_eq_true, List.mem_range] at hw2
+      have := hw2.1.2 0 (by rw [hl]; simp)
+      simp only [hl, List.getD_cons_zero, Bool.or_eq_true, Bool.not_eq_true', Bool.and_eq_true, decide_eq_true_eq] at this
+      rcases this with h' | h'
+      · exact h'
+      · omega
+  have hsim := sim (mkOf i) (itemsFrom i 0 i.lines) 1 none hok hinv
+  have hout := sim_out (mkOf i) (itemsFrom i 0 i.lines) 1 none hok hinv trivial
+  simp only [mapSt, origOf_itemsFrom] at hsim hout
+  -- the fields of the original run are what `rstrip` leaves
+  have hclean : ∀ g ∈ go none (numberFrom 1 i.lines), ∀ f ∈ g, rstripLines f.lines = f.lines := by
+    intro g hg f hf
+    have := Props.C10R.go_A i.lines i.lines [] rfl none trivial
+    simp only [List.length_nil, Nat.zero_add] at this
+    exact (this g hg f hf).clean
+  simp only [model, side, fromText]
+  rw [parse_render _ hA, parse_render _ hB, blankedLines_eq, hsim]
+  cases hfa : fromFieldsGroups (go none (numberFrom 1 i.lines)) with
+  | error e => trivial
+  | ok psA =>
+    obtain ⟨psB, hfb, hrel⟩ := fromFieldsGroups_rel (mkOf i) _ (fun g hg f hf => ⟨hout g hg f hf, hclean g hg f hf⟩) psA hfa
+    rw [hfb]
+    exact sameParas_of psA psB hrel
+
+/-- **C12, whole**: both halves -/
+theorem sound (i : Input) : holdsOn i (model i) = true := by
+  unfold holdsOn
+  cases hw : wf i with
+  | false => rfl
+  | true =>
+    simp only [Bool.not_true, Bool.false_or, Bool.and_eq_true, decide_eq_true_eq]
+    refine ⟨groups_sound i hw, ?_⟩
+    have hp := paras_sound i hw
+    -- building the object never raises (C07)
+    cases ho : (model i).orig.paras with
+    | error e =>
+      exfalso
+      simp only [model, side] at ho
+      have := Props.C07.fromText_ok (render i.lines)
+      obtain ⟨ps, hps⟩ := this
+      rw [hps] at ho; cases ho
+    | ok ps =>
+      rw [ho] at hp
+      cases hb : (model i).blanked.paras with
+      | error e => rw [hb] at hp; exact absurd hp (by simp)
+      | ok qs => rw [hb] at hp; exact hp
+
 end Props.C12P
